@@ -476,6 +476,12 @@ def _find_site(st: ast.stmt, helpers) -> tuple[ast.Call, str] | None:
 # ---------------------------------------------------------------------------------------------------------------
 # propagation of newly introduced locals
 
+def _root_name(e: ast.AST) -> str | None:
+    while isinstance(e, (ast.Attribute, ast.Subscript, ast.Call, ast.Starred)):
+        e = e.func if isinstance(e, ast.Call) else e.value
+    return e.id if isinstance(e, ast.Name) else None
+
+
 def _is_pure(e: ast.AST) -> bool:
     for x in ast.walk(e):
         if isinstance(x, (ast.Yield, ast.YieldFrom, ast.Await, ast.NamedExpr, ast.Lambda, ast.ListComp, ast.DictComp, ast.SetComp, ast.GeneratorExp,
@@ -560,6 +566,7 @@ def propagate_new_locals(fn: ast.FunctionDef, known_locals: set[str]) -> int:
                 continue
             operand_names = {n.id for n in ast.walk(e) if isinstance(n, ast.Name)}
             chains = {norm(a) for a in ast.walk(e) if isinstance(a, (ast.Attribute, ast.Subscript))}
+            reads_heap = any(isinstance(a, (ast.Attribute, ast.Subscript, ast.Call)) for a in ast.walk(e))
             uses = [n for n in g.nodes if n.id != dn.id and n.expr() is not None and any(isinstance(y, ast.Name) and y.id == x and isinstance(y.ctx, ast.Load) for y in ast.walk(n.expr()))]
             if not uses:
                 continue
@@ -580,6 +587,16 @@ def propagate_new_locals(fn: ast.FunctionDef, known_locals: set[str]) -> int:
                                 ok = False
                             if isinstance(y, (ast.Attribute, ast.Subscript)) and isinstance(y.ctx, (ast.Store, ast.Del)) and norm(y) in chains:
                                 ok = False
+                            if reads_heap:
+                                # e reads object state: a store through, or a call that is handed, one of the objects e starts from may change what e yields
+                                if isinstance(y, (ast.Attribute, ast.Subscript)) and isinstance(y.ctx, (ast.Store, ast.Del)) and _root_name(y) in operand_names:
+                                    ok = False
+                                if isinstance(y, ast.Call) and not _is_pure(y):
+                                    touched = {_root_name(a_) for a_ in [*y.args, *[k_.value for k_ in y.keywords]]}
+                                    if isinstance(y.func, ast.Attribute):
+                                        touched.add(_root_name(y.func.value))
+                                    if touched & operand_names:
+                                        ok = False
                     if not ok:
                         break
             if ok:
